@@ -38,8 +38,8 @@ RULE = (
 )
 ASSUMPTIONS = ["JSON-LD @prefix dictionaries always carry a string @id (DESIGN 7.3)", "rdflib's own namespaces() is the meaning of a graph's prefix map"]
 
-P = ["a", "A", "b", "ab", "é", "", "@x", "a.b", "GO", "x y"]
-U = ["u/", "u/x", "U/", "v#", "", "http://x/", "uu/", "vv#", "http://x/a_", "u/xy"]
+P = ["a", "A", "b", "ab", "é", "", "@x", "a.b", "GO", "x y", " a", "a ", "b\n", "ſ"]
+U = ["u/", "u/x", "U/", "v#", "", "http://x/", "uu/", "vv#", "http://x/a_", "u/xy", " u/", "u/ ", "HTTP://X/"]
 
 
 def recs_key(c):
